@@ -382,6 +382,9 @@ def iterconflicts(source, key, missing, exclude, include):
                         yield tuple(previous)
                         previous_yielded = True
                     yield tuple(row)
+                else:
+                    # the current row has not been yielded
+                    previous_yielded = False
             else:
                 # reset
                 previous_yielded = False
